@@ -34,6 +34,23 @@ class HoleSift:
         self.cx = FuncCtx(m, f)
         self.k = f.params[1]["name"]
         self.hp = f.params[0]["name"]
+        self.k0 = self.k
+        # `uint64_t hole = k;` with k itself never assigned: the local is the moving index
+        kid = f.params[1]["id"]
+        assigned = set()
+        for x in walk(f.body):
+            if (x["kind"] in ("BinaryOperator", "CompoundAssignOperator") and (x.get("opcode") == "=" or
+                                                                                x["kind"] == "CompoundAssignOperator")) or \
+                    (x["kind"] == "UnaryOperator" and x.get("opcode") in ("++", "--", "&")):
+                t = strip(kids(x)[0], casts=True)
+                if t["kind"] == "DeclRefExpr":
+                    assigned.add(t["ref"]["id"])
+        if kid not in assigned:
+            cps = [d for s_ in kids(f.body) if s_["kind"] == "DeclStmt" for d in kids(s_)
+                   if d["kind"] == "VarDecl" and kids(d) and d.get("id") in assigned and
+                   strip(kids(d)[0], casts=True)["kind"] == "DeclRefExpr" and strip(kids(d)[0], casts=True)["ref"].get("id") == kid]
+            if len(cps) == 1:
+                self.k = cps[0]["name"]
         # single-definition locals that merely copy another variable must not be taken for the index variables by name
         self.shadow = set()
         for x in walk(f.body):
@@ -173,6 +190,12 @@ class HoleSift:
                 raise AnalysisBroken("%s: store %s not understood" % (self.f.name, render(n)))
         elif is_assert_stmt(n) or k == "NullStmt":
             return
+        elif k == "UnaryOperator" and n.get("opcode") == "++" and strip(kids(n)[0], casts=True)["kind"] == "DeclRefExpr" and \
+                self.env.get(strip(kids(n)[0], casts=True)["ref"]["name"]) == "L":
+            nm = strip(kids(n)[0], casts=True)["ref"]["name"]          # left child + 1: the right child
+            self.env[nm] = "R"
+            if nm == self.k:
+                self.new_hole = "R"
         else:
             raise AnalysisBroken("%s: unsupported statement %s at line %s" % (self.f.name, k, n.get("line")))
 
@@ -244,6 +267,16 @@ def check_sifts(rep, rule, m):
                 if len(pv) == 1 and g2 and g2.group(1) == pv[0]["name"] and \
                         _norm(render(kids(pv[0])[0])) in ("%s>>1" % hs.k, "%s/2" % hs.k) and \
                         _norm(render(inc_)) in ("%s=%s>>1" % (pv[0]["name"], hs.k), "%s=%s/2" % (pv[0]["name"], hs.k)):
+                    ok_guard = g2.group(2) == "0"
+                    bad_guard = g2.group(2) == "1"
+                    env0[pv[0]["name"]] = "P"
+                elif len(pv) == 1 and g2 and g2.group(1) == pv[0]["name"] and \
+                        _norm(render(kids(pv[0])[0])) in ("%s>>1" % hs.k0, "%s/2" % hs.k0, "%s>>1" % hs.k, "%s/2" % hs.k) and \
+                        _norm(render(inc_)) in ("%s>>=1" % pv[0]["name"], "%s/=2" % pv[0]["name"],
+                                                "%s=%s>>1" % (pv[0]["name"], pv[0]["name"]), "%s=%s/2" % (pv[0]["name"], pv[0]["name"])) and \
+                        not any(x["kind"] == "ContinueStmt" for x in walk(body)):
+                    # for (up = k >> 1; up > 0; up >>= 1): up is the hole's parent at every loop head because every round
+                    # that does not leave the loop continues at the parent (checked below: the hole moves to P)
                     ok_guard = g2.group(2) == "0"
                     bad_guard = g2.group(2) == "1"
                     env0[pv[0]["name"]] = "P"
@@ -440,11 +473,22 @@ def scan_range_general(m, f, loop, H):
             i = strip(kids(y)[1], casts=True)
             if i["kind"] == "DeclRefExpr" and i["ref"]["name"] in ivars:
                 cursor = i["ref"]["name"]
+            elif i["kind"] == "BinaryOperator" and i.get("opcode") in ("+", "-"):
+                for z in (strip(kids(i)[0], casts=True), strip(kids(i)[1], casts=True)):
+                    if z["kind"] == "DeclRefExpr" and z["ref"]["name"] in ivars and _index_offset(cx, body, z["ref"]["name"]) is not None:
+                        cursor = z["ref"]["name"]
         if y["kind"] == "DeclRefExpr" and y["ref"]["name"] in ivars and "cmi_heap_tag" in (y.get("type") or "") and "*" in (y.get("type") or ""):
             cursor = cursor or y["ref"]["name"]
     if cursor is None or guard is None:
         raise AnalysisBroken("%s: heap scan without a recognisable slot cursor / guard" % f.name)
     scan_range_general.last_cursor = cursor
+    # the text of the subscript through which the entries are reached (the cursor, or cursor + constant)
+    scan_range_general.last_index = cursor
+    for y in walk(body):
+        if y["kind"] == "ArraySubscriptExpr" and re.fullmatch(r"(.+?)(->|\.)heap", cx.canon(kids(y)[0]) or "") and \
+                any(z["kind"] == "DeclRefExpr" and z["ref"]["name"] == cursor for z in walk(kids(y)[1])):
+            scan_range_general.last_index = cx.canon(kids(y)[1])
+            break
     cd = decl_of(cursor)
     if cd is None:
         raise AnalysisBroken("%s: the slot cursor '%s' has no initial value" % (f.name, cursor))
@@ -472,6 +516,9 @@ def scan_range_general(m, f, loop, H):
             last = bp
         else:
             raise AnalysisBroken("%s: heap scan guard with step %d not understood" % (f.name, step))
+        io_ = _index_offset(cx, body, cursor)
+        if io_:
+            first, last = first + Poly.const(io_), last + Poly.const(io_)
         return first, last, step
     # rounds counted by another variable
     gd = decl_of(gname)
@@ -508,7 +555,32 @@ def scan_range_general(m, f, loop, H):
                    re.fullmatch(r"\(.*heap_count (>|!=) 0\)|!\(.*heap_count == 0\)|!cmi_hashheap_is_empty\(.*\)", cd) for cd in conds):
             raise AnalysisBroken("%s: a do-while heap scan that is not guarded by 'there are entries'" % f.name)
     last = first + (trips - one).scale(step)
+    io_ = _index_offset(cx, body, cursor)
+    if io_:
+        first, last = first + Poly.const(io_), last + Poly.const(io_)
     return first, last, step
+
+
+def _index_offset(cx, body, vname):
+    """c if every subscript of a heap array in `body` that mentions the variable has the form heap[v + c] / heap[v - c] / heap[v]
+    with one literal c; None if there is no such subscript or they disagree"""
+    offs = set()
+    for y in walk(body):
+        if y["kind"] != "ArraySubscriptExpr" or not re.fullmatch(r"(.+?)(->|\.)heap", cx.canon(kids(y)[0]) or ""):
+            continue
+        i = strip(kids(y)[1], casts=True)
+        if i["kind"] == "DeclRefExpr" and i["ref"]["name"] == vname:
+            offs.add(0)
+        elif i["kind"] == "BinaryOperator" and i.get("opcode") in ("+", "-"):
+            a, b = strip(kids(i)[0], casts=True), strip(kids(i)[1], casts=True)
+            from ..astutil import int_value as _iv
+            if a["kind"] == "DeclRefExpr" and a["ref"]["name"] == vname and _iv(b) is not None:
+                offs.add(_iv(b) if i["opcode"] == "+" else -_iv(b))
+            elif i["opcode"] == "+" and b["kind"] == "DeclRefExpr" and b["ref"]["name"] == vname and _iv(a) is not None:
+                offs.add(_iv(a))
+            elif any(z["kind"] == "DeclRefExpr" and z["ref"]["name"] == vname for z in walk(i)):
+                return None
+    return next(iter(offs)) if len(offs) == 1 else None
 
 
 def scan_range(m, f, loop, H):
@@ -583,6 +655,9 @@ def scan_range(m, f, loop, H):
         last = bound
     else:
         raise AnalysisBroken("%s: heap scan guard %s with step %d not understood" % (f.name, render(cond), step))
+    io_ = _index_offset(cx, ch[4], v["name"])
+    if io_:
+        first, last = first + Poly.const(io_), last + Poly.const(io_)
     return first, last, step
 
 
@@ -748,6 +823,18 @@ def check_reposition(rep, rule, m):
                 return sorted(out)
             if c0["kind"] == "DeclRefExpr" and c0["ref"]["id"] in st["bools"]:
                 return st["bools"][c0["ref"]["id"]]       # the outcome as it was when the comparison was made
+            # (flag ? a : b) == k  with literals: the test of an index computed from a comparison
+            if c0["kind"] == "BinaryOperator" and c0.get("opcode") in ("==", "!="):
+                for u_, v_ in ((kids(c0)[0], kids(c0)[1]), (kids(c0)[1], kids(c0)[0])):
+                    u0, kv = strip(u_, casts=True), int_value(strip(v_, casts=True))
+                    if u0["kind"] == "ConditionalOperator" and kv is not None:
+                        a_, b_ = int_value(strip(kids(u0)[1], casts=True)), int_value(strip(kids(u0)[2], casts=True))
+                        if a_ is not None and b_ is not None:
+                            outs = set()
+                            for cv in cond_values(kids(u0)[0], st):
+                                val = a_ if cv else b_
+                                outs.add((val == kv) if c0["opcode"] == "==" else (val != kv))
+                            return sorted(outs)
             r0 = cx.resolve(c0)
             if r0["kind"] == "CallExpr" and callee_ref(r0) is None and "heap_compare" in cx.canon(kids(r0)[0]):
                 return atom_value(r0, st)
@@ -772,7 +859,11 @@ def check_reposition(rep, rule, m):
                     ini = kids(vd)[0]
                     t = vd.get("type") or ""
                     ic = cx.canon(ini)
-                    if "struct cmi_heap_tag" in t and "*" not in t:
+                    if "struct cmi_heap_tag" in t and "*" not in t and strip(ini, casts=True)["kind"] == "DeclRefExpr" and \
+                            strip(ini, casts=True)["ref"]["id"] in st["snap"]:
+                        # a copy of a copy keeps what the first copy held
+                        st = dict(st, snap=dict(st["snap"], **{vd["id"]: st["snap"][strip(ini, casts=True)["ref"]["id"]]}))
+                    elif "struct cmi_heap_tag" in t and "*" not in t:
                         if is_entry(ic) or (strip(ini, casts=True)["kind"] == "DeclRefExpr" and False):
                             st = dict(st, snap=dict(st["snap"], **{vd["id"]: ("new" if st["stored"] >= 2 else "old")}))
                         else:
